@@ -47,6 +47,7 @@ type poolRun struct {
 	jobs      []*jobRec
 	stopRets  []int
 	stopCalls []int
+	stopPairs [][2]int // (call, return) of every Stop, also of overlapping ones
 	cancels   []int // moments at which the context given to Run was cancelled
 	runRets   []int
 	runCalls  []int
@@ -112,10 +113,13 @@ func runPool(c PoolCase, count bool) *poolRun {
 				}
 			case "stop":
 				stopCalled = true
-				res.stopCalls = append(res.stopCalls, tick())
+				sc := tick()
+				res.stopCalls = append(res.stopCalls, sc)
 				p.Stop()
 				running, dead = false, false
-				res.stopRets = append(res.stopRets, tick())
+				sr := tick()
+				res.stopRets = append(res.stopRets, sr)
+				res.stopPairs = append(res.stopPairs, [2]int{sc, sr})
 			case "sched":
 				// a periodic job (as the database schedules its collector): ticks are not counted, but the loop
 				// behind it is one more sender that Stop has to get rid of
@@ -277,7 +281,16 @@ func judgePool(c PoolCase, pr *poolRun) *ev.Result {
 		}
 		for _, st := range j.starts {
 			if c.Lifecyle {
-				break // Run/Stop overlap arbitrarily: only no-panic, no-deadlock and at-most-once are demanded
+				// Run/Stop overlap arbitrarily: no-panic, no-deadlock and at-most-once are demanded - and, for
+				// EVERY Stop (also one that overlaps another Stop): a job that was in flight when that Stop was
+				// called has finished when it returns (jobs of this profile are plain no-ops)
+				for _, sp := range pr.stopPairs {
+					if st < sp[0] && (len(j.ends) == 0 || j.ends[0] > sp[1]) && j.kind == "noop" {
+						r.Failf("a Stop called at %d returned at %d although job %d, started at %d (before that Stop was called), had not finished", sp[0], sp[1], j.id, st)
+						return r
+					}
+				}
+				break
 			}
 			for i, sr := range pr.stopRets {
 				// a job that started before Stop was called must have finished when Stop returns;
